@@ -350,6 +350,54 @@ Proof.
   - intro H. apply (backend_list_stores_subset (i :: rest) name all st); [discriminate | exact H].
 Qed.
 
+Lemma bmem_In x l : bmem x l = true <-> In x l.
+Proof.
+  induction l as [|y r IH]; simpl.
+  - split; [discriminate | intros []].
+  - rewrite orb_true_iff, IH, beqb_eq. split; intros [H|H]; auto.
+Qed.
+
+(* both backends return the same set of stores for every id list (ids of stores that do not
+   exist, duplicates and the empty list included) *)
+Lemma backend_list_stores_same_members ids name all st :
+  In st (backend_list_stores ids name all) <-> In st (backend_list_stores_sqlite ids name all).
+Proof.
+  unfold backend_list_stores, backend_list_stores_sqlite.
+  assert (K : In st (match ids with [] => all | _ :: _ => flat_map (fun id => filter (fun st0 => beqb (fst st0) id) all) ids end)
+              <-> In st (match ids with [] => all | _ :: _ => filter (fun st0 => bmem (fst st0) ids) all end)).
+  { destruct ids as [|i rest]; [tauto|].
+    rewrite in_flat_map, filter_In, bmem_In. split.
+    - intros [id [Hid Hf]]. apply filter_In in Hf. destruct Hf as [Ha Hb].
+      apply beqb_eq in Hb. subst id. split; [exact Ha | exact Hid].
+    - intros [Ha Hi]. exists (fst st). split; [exact Hi|].
+      apply filter_In. split; [exact Ha | apply beqb_refl]. }
+  destruct name as [|n0 nr]; [exact K|].
+  rewrite !filter_In, K. tauto.
+Qed.
+
+(* what the id filter returns, for ANY id list that is not empty: exactly the live stores
+   (name filter applied) whose id is in the list; ids of stores that no longer exist select
+   nothing, however many there are *)
+Lemma backend_list_stores_exact ids name all st :
+  ids <> [] ->
+  (In st (backend_list_stores ids name all) <->
+   In st all /\ In (fst st) ids /\ (name = [] \/ snd st = name)).
+Proof.
+  intro Hne. unfold backend_list_stores. destruct ids as [|i rest]; [contradiction|].
+  assert (K : In st (flat_map (fun id => filter (fun st0 => beqb (fst st0) id) all) (i :: rest))
+              <-> In st all /\ In (fst st) (i :: rest)).
+  { rewrite in_flat_map. split.
+    - intros [id [Hid Hf]]. apply filter_In in Hf. destruct Hf as [Ha Hb].
+      apply beqb_eq in Hb. subst id. split; [exact Ha | exact Hid].
+    - intros [Ha Hi]. exists (fst st). split; [exact Hi|].
+      apply filter_In. split; [exact Ha | apply beqb_refl]. }
+  destruct name as [|n0 nr].
+  - rewrite K. split; [intros [A B]; auto | intros [A [B _]]; auto].
+  - rewrite filter_In, K, beqb_eq. split.
+    + intros [[A B] C]. auto.
+    + intros [A [B [C|C]]]; [discriminate | auto].
+Qed.
+
 Lemma list_stores_requires_list_grant g la cl name all ids :
   list_stores g la cl name all = LSStores ids ->
   exists c, cl = Claims c /\ c <> [] /\ g c R_CanCallListStores OSystem = Some true /\
@@ -374,6 +422,32 @@ Proof.
   intros Ha Hne. unfold list_stores. rewrite Ha. intro H. inversion H; subst. clear H.
   intros s Hs. apply in_map_iff in Hs. destruct Hs as [st [<- Hst]].
   apply (backend_list_stores_subset acc name all st Hne Hst).
+Qed.
+
+(* the same with the live store list made explicit: for every accessible list (it may name
+   stores that were deleted or never existed, and may be longer than the live list) every
+   returned id is accessible AND live *)
+Lemma list_stores_live_subset_partial g la cl name all acc ids :
+  accessible_stores g la cl = Some acc -> acc <> [] ->
+  list_stores g la cl name all = LSStores ids ->
+  forall s, In s ids -> In s acc /\ In s (map fst all).
+Proof.
+  intros Ha Hne. unfold list_stores. rewrite Ha. intro H. inversion H; subst. clear H.
+  intros s Hs. apply in_map_iff in Hs. destruct Hs as [st [<- Hst]].
+  destruct (backend_list_stores_subset acc name all st Hne Hst) as [A B].
+  split; [exact A | apply in_map; exact B].
+Qed.
+
+Lemma list_stores_sqlite_same_members g la cl name all :
+  match list_stores g la cl name all, list_stores_sqlite g la cl name all with
+  | LSDenied, LSDenied => True
+  | LSStores a, LSStores b => forall s, In s a <-> In s b
+  | _, _ => False
+  end.
+Proof.
+  unfold list_stores, list_stores_sqlite. destruct (accessible_stores g la cl) as [acc|]; [|exact I].
+  intro s. rewrite !in_map_iff. split; intros [st [E H]]; exists st; (split; [exact E|]);
+    apply backend_list_stores_same_members; exact H.
 Qed.
 
 (* "ListStores returns only stores the caller may get", when ListObjects on the control store
